@@ -385,11 +385,15 @@ func runTUnary(m *model.Model, s *ob.Set) {
 	// ---- Sqrt
 	for c := 0; c < 6; c++ {
 		for _, xexp := range []int64{4, 5, -3} {
-			for _, zp := range []int64{12, 0, 4} {
+			for _, zp := range []int64{12, 0, 4, 3} {
 				fn := m.Lookup("(*Decimal).Sqrt")
 				it := stdInterp(m)
 				st := cdai.NewState()
-				x := mkDec(m, st, decSpec{form: i64(e.formOf(c)), neg: bptr(negOf(c)), prec: i64(7), mode: i64(xMode), acc: i64(e.above), exp: i64(xexp)})
+				xprec := int64(7)
+				if zp == 3 {
+					xprec = 5000 // an operand much wider than the receiver
+				}
+				x := mkDec(m, st, decSpec{form: i64(e.formOf(c)), neg: bptr(negOf(c)), prec: i64(xprec), mode: i64(xMode), acc: i64(e.above), exp: i64(xexp)})
 				z := mkDec(m, st, decSpec{prec: i64(zp), mode: i64(zMode), acc: i64(e.below)})
 				cc, zpp := c, zp
 				cell(m, s, R, fmt.Sprintf("Sqrt(%s) exp=%d zprec=%d", classNames[c], xexp, zp), fn, it, st, []cdai.Val{z, x}, z, func(o cdai.Outcome) string {
@@ -402,6 +406,15 @@ func runTUnary(m *model.Model, s *ob.Set) {
 					wp := zpp
 					if wp == 0 {
 						wp = 7
+					}
+					// a plain round() of the working copy before the root is computed is a second rounding
+					for _, ev := range o.St.Trace {
+						if ev.Fn == "(*Decimal).sqrtInverse" {
+							break
+						}
+						if ev.Fn == "(*Decimal).round" && len(ev.Args) > 0 && sameObj(ev.Args[0], z) {
+							return "the operand's copy is rounded before the root is computed (double rounding: digits dropped here are invisible to the final rounding)"
+						}
 					}
 					if f := first(retIsObj(o, z), wantField(m, o, z, F.Mode, zMode, "receiver mode (must be unchanged)"), wantField(m, o, z, F.Prec, wp, "receiver precision")); f != "" {
 						return f
